@@ -132,6 +132,7 @@ func cmdCheck(id string, args []string) int {
 	verbose := fs.Bool("v", false, "verbose")
 	noReplay := fs.Bool("no-replay", false, "skip native replay (debugging only; never used by registered commands)")
 	evidenceOut := fs.String("evidence", "", "evidence path (default evidence/<ID>.json)")
+	maxPaths := fs.Int("max-paths", 0, "stop a harness after this many paths (debugging; the run is then inconclusive)")
 	fs.Parse(args)
 	if *tier == "" {
 		*tier = os.Getenv("VERIF_TIER")
@@ -157,6 +158,7 @@ func cmdCheck(id string, args []string) int {
 	if *tier == "thorough" {
 		opts.TimeoutMs = 300000
 	}
+	opts.MaxPaths = *maxPaths
 	eng, err := loadEngine(pkgs, opts)
 	if err != nil {
 		fmt.Fprintln(os.Stderr, "INCONCLUSIVE: cannot load /repo:", err)
